@@ -1,11 +1,301 @@
-(** C07 - proofs about Table::Query's walk (model in Lookup/Model.v). *)
+(** C07 - Table::Query's breadth-first walk returns exactly the index codes that label a path of the graph. *)
 From Coq Require Import List Arith ZArith NArith Bool Lia.
-From RimeV Require Import Lookup.Defs Lookup.Model.
+From RimeV Require Import Lookup.Defs Lookup.Model Lookup.Spec Lookup.MapProofs.
 Import ListNotations.
+
+(** * paths *)
+Lemma gpath_app g s a b e : gpath g s (a ++ b) e <-> exists m, gpath g s a m /\ gpath g m b e.
+Proof.
+  revert s. induction a as [|x a IH]; intros s; cbn [app].
+  - split.
+    + intros H. exists s. split; [constructor|exact H].
+    + intros [m [H1 H2]]. inversion H1; subst. exact H2.
+  - split.
+    + intros H. inversion H as [|? ? p ? ? He Hr]; subst. apply IH in Hr. destruct Hr as [m [H1 H2]].
+      exists m. split; [econstructor; eassumption|exact H2].
+    + intros [m [H1 H2]]. inversion H1 as [|? ? p ? ? He Hr]; subst.
+      econstructor; [exact He|]. apply IH. eauto.
+Qed.
+
+Lemma gpath_single g s x e : gpath g s [x] e <-> exists p, has_edge g s x p /\ e = p_end p.
+Proof.
+  split.
+  - intros H. inversion H as [|? ? p ? ? He Hr]; subst. inversion Hr; subst. eauto.
+  - intros [p [He ->]]. econstructor; [exact He|constructor].
+Qed.
+
+Lemma gpath_snoc g s ic x e :
+  gpath g s (ic ++ [x]) e <-> exists m p, gpath g s ic m /\ has_edge g m x p /\ e = p_end p.
+Proof.
+  rewrite gpath_app. split.
+  - intros [m [H1 H2]]. apply gpath_single in H2. destruct H2 as [p [He ->]]. eauto.
+  - intros [m [p [H1 [He ->]]]]. exists m. split; [exact H1|]. apply gpath_single. eauto.
+Qed.
+
+Lemma gpath_le g s c e : wf_graph g -> gpath g s c e -> s <= e.
+Proof.
+  intros W H. induction H as [|s x p rest e He Hr IH]; [lia|].
+  apply (wf_forward g W) in He. lia.
+Qed.
+
+Lemma gpath_lt g s c e : wf_graph g -> c <> [] -> gpath g s c e -> s < e.
+Proof.
+  intros W N H. destruct H as [|s x p rest e He Hr]; [congruence|].
+  pose proof (gpath_le g _ _ _ W Hr). apply (wf_forward g W) in He. lia.
+Qed.
+
+Lemma gpath_end_le g s c e : wf_graph g -> c <> [] -> gpath g s c e -> e <= g_ilen g.
+Proof.
+  intros W N H. induction H as [|s x p rest e He Hr IH]; [congruence|].
+  destruct rest as [|y rest].
+  - inversion Hr; subst. apply (wf_forward g W) in He. lia.
+  - apply IH. discriminate.
+Qed.
+
+(** * lookups in a well-formed graph *)
+Lemma assoc_index g pos index :
+  wf_graph g -> (assoc_nat pos (g_indices g) = Some index <-> In (pos, index) (g_indices g)).
+Proof.
+  intros W. split; [apply assoc_nat_in|]. apply in_assoc_nat_nodup. exact (wf_idx_nodup g W).
+Qed.
+
+Lemma assoc_syll g pos index x pl :
+  wf_graph g -> In (pos, index) (g_indices g) -> (assoc_nat x index = Some pl <-> In (x, pl) index).
+Proof.
+  intros W Hi. split; [apply assoc_nat_in|]. apply in_assoc_nat_nodup. exact (wf_syl_nodup g W _ _ Hi).
+Qed.
+
+Lemma indices_functional g pos i1 i2 :
+  wf_graph g -> In (pos, i1) (g_indices g) -> In (pos, i2) (g_indices g) -> i1 = i2.
+Proof.
+  intros W H1 H2. apply (assoc_index g pos i1 W) in H1. apply (assoc_index g pos i2 W) in H2. congruence.
+Qed.
+
+(** * one iteration of the loop *)
+Lemma step_state_results g t pos ic cred e a :
+  wf_graph g -> length ic <> 3 ->
+  (In (e, a) (fst (step_state g t (pos, ic, cred))) <->
+   exists x p, has_edge g pos x p /\ e = p_end p /\ a = access t ic x cred /\ acc_exhausted a = false).
+Proof.
+  intros W L. unfold step_state.
+  destruct (assoc_nat pos (g_indices g)) as [index|] eqn:EA.
+  - apply (assoc_index g pos index W) in EA.
+    destruct (length ic =? 3) eqn:E3; [apply Nat.eqb_eq in E3; contradiction|]. cbn [fst].
+    rewrite in_flat_map. split.
+    + intros [[x pl] [Hx Hin]]. cbn [fst snd] in Hin. apply in_flat_map in Hin. destruct Hin as [p [Hp Hin]].
+      destruct (acc_exhausted (access t ic x cred)) eqn:EX; [destruct Hin|].
+      destruct Hin as [Hin|[]]. injection Hin as <- <-.
+      exists x, p. repeat split; try assumption. exists index, pl. auto.
+    + intros [x [p [[index' [pl [Hi [Hx Hp]]]] [-> [-> EX]]]]].
+      pose proof (indices_functional g pos index index' W EA Hi). subst index'.
+      exists (x, pl). split; [exact Hx|]. cbn [fst snd]. apply in_flat_map. exists p. split; [exact Hp|].
+      rewrite EX. now left.
+  - cbn. split; [intros []|]. intros [x [p [[index' [pl [Hi _]]] _]]].
+    apply (assoc_index g pos index' W) in Hi. congruence.
+Qed.
+
+Lemma step_state_next g t pos ic cred st' :
+  wf_graph g -> length ic <> 3 ->
+  (In st' (snd (step_state g t (pos, ic, cred))) <->
+   exists x p, has_edge g pos x p /\ p_end p < g_ilen g /\ node_next t (ic ++ [x]) = true /\
+               st' = (p_end p, ic ++ [x], (cred + p_cred p)%Z)).
+Proof.
+  intros W L. unfold step_state.
+  destruct (assoc_nat pos (g_indices g)) as [index|] eqn:EA.
+  - apply (assoc_index g pos index W) in EA.
+    destruct (length ic =? 3) eqn:E3; [apply Nat.eqb_eq in E3; contradiction|]. cbn [snd].
+    rewrite in_flat_map. split.
+    + intros [[x pl] [Hx Hin]]. cbn [fst snd] in Hin. apply in_flat_map in Hin. destruct Hin as [p [Hp Hin]].
+      destruct ((p_end p <? g_ilen g) && can_advance t ic x) eqn:EC; [|destruct Hin].
+      apply andb_true_iff in EC. destruct EC as [E1 E2]. apply Nat.ltb_lt in E1.
+      destruct Hin as [Hin|[]]. subst st'. exists x, p. repeat split; try assumption. exists index, pl. auto.
+    + intros [x [p [[index' [pl [Hi [Hx Hp]]]] [E1 [E2 ->]]]]].
+      pose proof (indices_functional g pos index index' W EA Hi). subst index'.
+      exists (x, pl). split; [exact Hx|]. cbn [fst snd]. apply in_flat_map. exists p. split; [exact Hp|].
+      apply Nat.ltb_lt in E1. unfold can_advance. rewrite E1, E2. now left.
+  - cbn. split; [intros []|]. intros [x [p [[index' [pl [Hi _]]] _]]].
+    apply (assoc_index g pos index' W) in Hi. congruence.
+Qed.
+
+Lemma step_state_results3 g t pos ic cred e a :
+  wf_graph g -> length ic = 3 ->
+  (In (e, a) (fst (step_state g t (pos, ic, cred))) <->
+   (exists index, In (pos, index) (g_indices g)) /\ e = pos /\ a = tail_access t ic cred /\ acc_exhausted a = false).
+Proof.
+  intros W L. unfold step_state.
+  destruct (assoc_nat pos (g_indices g)) as [index|] eqn:EA.
+  - apply (assoc_index g pos index W) in EA. rewrite L. cbn [Nat.eqb fst].
+    destruct (acc_exhausted (tail_access t ic cred)) eqn:EX.
+    + split; [intros []|]. intros [_ [_ [-> H]]]. congruence.
+    + split.
+      * intros [H|[]]. injection H as <- <-. eauto.
+      * intros [_ [-> [-> _]]]. now left.
+  - cbn. split; [intros []|]. intros [[index' Hi] _]. apply (assoc_index g pos index' W) in Hi. congruence.
+Qed.
+
+Lemma step_state_next3 g t pos ic cred : length ic = 3 -> snd (step_state g t (pos, ic, cred)) = [].
+Proof.
+  intros L. unfold step_state. destruct (assoc_nat pos (g_indices g)); [|reflexivity].
+  rewrite L. reflexivity.
+Qed.
+
+(** * generations of the queue *)
+Fixpoint gen (g : graph) (t : table) (start : nat) (k : nat) : list qstate :=
+  match k with
+  | 0 => [(start, [], 0%Z)]
+  | S k' => snd (step_all g t (gen g t start k'))
+  end.
+
+Lemma query_gens g t start :
+  start < g_ilen g ->
+  query g t start = flat_map (fun k => fst (step_all g t (gen g t start k))) [0; 1; 2; 3].
+Proof.
+  intros H. unfold query. destruct (g_ilen g <=? start) eqn:E; [apply Nat.leb_le in E; lia|].
+  cbn [flat_map gen]. now rewrite app_nil_r.
+Qed.
+
+Lemma wpath_inv g t start c pos cred :
+  wpath g t start c pos cred ->
+  (c = [] /\ pos = start /\ cred = 0%Z) \/
+  (exists ic pos0 cred0 x p, c = ic ++ [x] /\ wpath g t start ic pos0 cred0 /\ has_edge g pos0 x p /\
+     p_end p < g_ilen g /\ node_next t (ic ++ [x]) = true /\ pos = p_end p /\ cred = (cred0 + p_cred p)%Z).
+Proof. destruct 1; [left; auto|right]. do 5 eexists. repeat split; eauto. Qed.
+
+Lemma gen_spec g t start k pos ic cred :
+  wf_graph g -> k <= 3 ->
+  (In (pos, ic, cred) (gen g t start k) <-> length ic = k /\ wpath g t start ic pos cred).
+Proof.
+  intros W. revert pos ic cred. induction k as [|k IH]; intros pos ic cred Hk.
+  - cbn [gen]. split.
+    + intros [H|[]]. injection H as <- <- <-. split; [reflexivity|constructor].
+    + intros [L H]. apply wpath_inv in H. destruct H as [[-> [-> ->]]|H]; [now left|].
+      destruct H as [ic0 [? [? [x [? [-> _]]]]]]. rewrite app_length in L. cbn in L. lia.
+  - cbn [gen]. unfold step_all. cbn [snd]. rewrite in_flat_map. split.
+    + intros [[[pos0 ic0] cred0] [Hin Hst]]. apply IH in Hin; [|lia]. destruct Hin as [L0 W0].
+      apply step_state_next in Hst; [|exact W|lia].
+      destruct Hst as [x [p [He [Hl [Hn Heq]]]]]. injection Heq as -> -> ->.
+      split; [rewrite app_length; cbn; lia|]. eapply wp_snoc; eassumption.
+    + intros [L H]. apply wpath_inv in H. destruct H as [[-> _]|H]; [cbn in L; lia|].
+      destruct H as [ic0 [pos0 [cred0 [x [p [-> [W0 [He [Hl [Hn [-> ->]]]]]]]]]]].
+      rewrite app_length in L. cbn in L.
+      exists (pos0, ic0, cred0). split; [apply IH; [lia|split; [lia|exact W0]]|].
+      apply step_state_next; [exact W|lia|]. exists x, p. auto.
+Qed.
+
+(** * Table::Query: what it returns, exactly *)
+Definition short_result (g : graph) (t : table) (start e : nat) (a : accessor) : Prop :=
+  exists ic pos cred x p,
+    wpath g t start ic pos cred /\ length ic < 3 /\ has_edge g pos x p /\ e = p_end p /\
+    a = AccShort (ic ++ [x]) (node_ents t (ic ++ [x])) cred /\ node_ents t (ic ++ [x]) <> [].
+
+Definition long_result (g : graph) (t : table) (start e : nat) (a : accessor) : Prop :=
+  exists ic cred,
+    wpath g t start ic e cred /\ length ic = 3 /\ (exists index, In (e, index) (g_indices g)) /\
+    a = AccLong ic (node_tail t ic) cred /\ node_tail t ic <> [].
+
+Lemma acc_short_exhausted ic l cred : acc_exhausted (AccShort ic l cred) = false <-> l <> [].
+Proof. destruct l; cbn; split; congruence. Qed.
+Lemma acc_long_exhausted ic l cred : acc_exhausted (AccLong ic l cred) = false <-> l <> [].
+Proof. destruct l; cbn; split; congruence. Qed.
+
+Theorem query_sound_complete g t start e a :
+  wf_graph g -> start < g_ilen g ->
+  (In (e, a) (query g t start) <-> short_result g t start e a \/ long_result g t start e a).
+Proof.
+  intros W Hs. rewrite query_gens by exact Hs. rewrite in_flat_map. split.
+  - intros [k [Hk Hin]]. assert (K : k <= 3) by (cbn in Hk; lia).
+    unfold step_all in Hin. cbn [fst] in Hin. apply in_flat_map in Hin.
+    destruct Hin as [[[pos ic] cred] [Hst Hin]]. apply (gen_spec g t start k pos ic cred W K) in Hst.
+    destruct Hst as [L Wp]. destruct (Nat.eq_dec k 3) as [->|N3].
+    + right. apply step_state_results3 in Hin; [|exact W|exact L].
+      destruct Hin as [Hi [-> [-> EX]]]. unfold tail_access in *. apply acc_long_exhausted in EX.
+      exists ic, cred. auto.
+    + left. apply step_state_results in Hin; [|exact W|lia].
+      destruct Hin as [x [p [He [-> [-> EX]]]]]. unfold access in *. apply acc_short_exhausted in EX.
+      exists ic, pos, cred, x, p. repeat split; auto. lia.
+  - intros [[ic [pos [cred [x [p [Wp [L [He [-> [-> NE]]]]]]]]]]|[ic [cred [Wp [L [Hi [-> NE]]]]]]].
+    + exists (length ic). split; [cbn; lia|]. unfold step_all. cbn [fst]. apply in_flat_map.
+      exists (pos, ic, cred). split; [apply gen_spec; [exact W|lia|auto]|].
+      apply step_state_results; [exact W|lia|]. exists x, p. repeat split; auto.
+      unfold access. now apply acc_short_exhausted.
+    + exists 3. split; [cbn; auto|]. unfold step_all. cbn [fst]. apply in_flat_map.
+      exists (e, ic, cred). split; [apply gen_spec; [exact W|lia|auto]|].
+      apply step_state_results3; [exact W|exact L|]. repeat split; auto.
+      unfold tail_access. now apply acc_long_exhausted.
+Qed.
 
 Lemma query_out_of_range (g : graph) (t : table) (start : nat) :
   g_ilen g <= start -> query g t start = [].
 Proof.
   intros H. unfold query. destruct (g_ilen g <=? start) eqn:E; [reflexivity|].
   apply Nat.leb_gt in E. lia.
+Qed.
+
+(** * the walk relation against plain graph paths *)
+Lemma wpath_gpath g t start ic pos cred : wpath g t start ic pos cred -> gpath g start ic pos.
+Proof.
+  induction 1 as [|ic pos cred x p Wp IH He Hl Hn]; [constructor|].
+  apply gpath_snoc. eauto.
+Qed.
+
+Lemma wpath_pos_lt g t start ic pos cred :
+  start < g_ilen g -> wpath g t start ic pos cred -> pos < g_ilen g.
+Proof. intros Hs. destruct 1; assumption. Qed.
+
+(** every non-empty prefix of [c] leads to a node with a next level *)
+Definition advanceable (t : table) (c : code) : Prop :=
+  forall c' r, c = c' ++ r -> c' <> [] -> node_next t c' = true.
+
+Lemma gpath_wpath g t start ic pos :
+  wf_graph g -> start < g_ilen g -> gpath g start ic pos -> pos < g_ilen g -> advanceable t ic ->
+  exists cred, wpath g t start ic pos cred.
+Proof.
+  intros W Hs. revert pos. induction ic as [|x ic IH] using rev_ind; intros pos Hp Hl Ha.
+  - inversion Hp; subst. exists 0%Z. constructor.
+  - apply gpath_snoc in Hp. destruct Hp as [m [p [Hp [He ->]]]].
+    pose proof (wf_forward g W _ _ _ He) as Hf.
+    destruct (IH m Hp) as [cred Wp]; [lia| |].
+    + intros c' r E N. apply (Ha c' (r ++ [x])); [|exact N]. rewrite E. now rewrite app_assoc.
+    + exists (cred + p_cred p)%Z. eapply wp_snoc; eauto. apply (Ha (ic ++ [x]) []); [now rewrite app_nil_r|].
+      now destruct ic.
+Qed.
+
+(** index codes of at most three syllables: the accessor of [c] is returned at [e] iff [c] labels a path start -> e *)
+Corollary query_short_codes g t start c e :
+  wf_graph g -> wf_table t -> start < g_ilen g -> 1 <= length c <= 3 -> node_ents t c <> [] ->
+  ((exists cred, In (e, AccShort c (node_ents t c) cred) (query g t start)) <-> gpath g start c e).
+Proof.
+  intros W WT Hs L NE. split.
+  - intros [cred Hin]. apply query_sound_complete in Hin; [|exact W|exact Hs].
+    destruct Hin as [[ic [pos [cr [x [p [Wp [Li [He [-> [E _]]]]]]]]]]|[ic [cr [_ [_ [_ [E _]]]]]]]; [|discriminate].
+    injection E as -> _ _. apply gpath_snoc. exists pos, p. split; [eapply wpath_gpath; eassumption|auto].
+  - intros Hp. destruct c as [|x0 c0] using rev_ind; [cbn in L; lia|]. clear IHc0.
+    rewrite app_length in L. cbn in L.
+    apply gpath_snoc in Hp. destruct Hp as [m [p [Hp [He ->]]]].
+    pose proof (wf_forward g W _ _ _ He) as Hf.
+    destruct (gpath_wpath g t start c0 m W Hs Hp) as [cred Wp]; [lia| |].
+    + intros c' r E N. apply (wf_prefix_closed t WT (c0 ++ [x0]) c'); [now left| |exact N].
+      exists (r ++ [x0]). split; [now destruct r|]. rewrite E. now rewrite app_assoc.
+    + exists cred. apply query_sound_complete; [exact W|exact Hs|]. left.
+      exists c0, m, cred, x0, p. repeat split; auto. lia.
+Qed.
+
+(** codes longer than three syllables: the tail page of [ic] is returned at [e] iff [ic] labels a path start -> e
+    that stops before the end of the interpreted input *)
+Corollary query_tail_pages g t start ic e :
+  wf_graph g -> wf_table t -> start < g_ilen g -> node_tail t ic <> [] ->
+  ((exists cred, In (e, AccLong ic (node_tail t ic) cred) (query g t start)) <->
+   gpath g start ic e /\ e < g_ilen g /\ exists index, In (e, index) (g_indices g)).
+Proof.
+  intros W WT Hs NE. pose proof (wf_tail_len t WT ic NE) as L3. split.
+  - intros [cred Hin]. apply query_sound_complete in Hin; [|exact W|exact Hs].
+    destruct Hin as [[ic0 [pos [cr [x [p [_ [_ [_ [_ [E _]]]]]]]]]]|[ic0 [cr [Wp [L [Hi [E _]]]]]]]; [discriminate|].
+    injection E as -> _ _. split; [eapply wpath_gpath; eassumption|]. split; [|exact Hi].
+    eapply wpath_pos_lt; eassumption.
+  - intros [Hp [Hl Hi]].
+    destruct (gpath_wpath g t start ic e W Hs Hp Hl) as [cred Wp].
+    + intros c' r E N. destruct r as [|y r].
+      * rewrite app_nil_r in E. subst c'. now apply (wf_tail_next t WT).
+      * apply (wf_prefix_closed t WT ic c'); [now right| |exact N]. exists (y :: r). split; [discriminate|exact E].
+    + exists cred. apply query_sound_complete; [exact W|exact Hs|]. right. exists ic, cred. auto.
 Qed.
